@@ -38,6 +38,25 @@ class VLoop(asyncio.BaseEventLoop):
         self.max_iterations = max_iterations
         self._selector = _FakeSelector(self)
         self._clock_resolution = 1e-9
+        self.ignored_close = 0      # async generators that answered a finalisation close request by yielding again
+
+    # Same as BaseEventLoop._asyncgen_finalizer_hook, except that the outcome of the aclose() task is looked at: asyncio
+    # itself only reports 'async generator ignored GeneratorExit' through a "Task exception was never retrieved" message
+    # whenever the task object happens to be collected.
+    def _asyncgen_finalizer_hook(self, agen):
+        self._asyncgens.discard(agen)
+        if not self.is_closed():
+            self.call_soon_threadsafe(self._create_close_task, agen)
+
+    def _create_close_task(self, agen):
+        t = self.create_task(agen.aclose())
+        t.add_done_callback(self._note_close_result)
+
+    def _note_close_result(self, t):
+        if not t.cancelled():
+            e = t.exception()
+            if e is not None and 'ignored GeneratorExit' in str(e):
+                self.ignored_close += 1
 
     def time(self):
         return self._now
